@@ -104,6 +104,7 @@ type FnCtx struct {
 	fc       *FuncContract
 	facts    []*Term
 	triggers []*Term
+	trigNth  map[int]bool // fact index -> trigger is 'some element of the trigger sequence is mentioned'
 	obls     []*Obligation
 	kindOrd  map[string]int
 	writeLog *writeLog
@@ -124,6 +125,10 @@ type FnCtx struct {
 	layerInst  map[[2]int]bool
 	curFrame   *Frame
 	pendingBindings []SymVal
+	mapReads    []mapRead
+	ptrReads    []ptrRead
+	globalReads []*Cell
+	globalSeen  map[*Cell]bool
 }
 
 type writeLog struct {
@@ -165,7 +170,7 @@ func (c *FnCtx) addObl(st *State, kind, anchor string, goal *Term, pos token.Pos
 		return
 	}
 	ts := c.eng.ts
-	g := ts.Implies(st.pc, goal)
+	g := ts.Skolemize(ts.Implies(st.pc, goal))
 	c.kindOrd[kind]++
 	fname := c.top.RelString(c.top.Pkg.Pkg)
 	name := fmt.Sprintf("%s:%s:%s", fname, kind, anchor)
@@ -182,9 +187,31 @@ func (c *FnCtx) addObl(st *State, kind, anchor string, goal *Term, pos token.Pos
 	c.obls = append(c.obls, o)
 }
 
+// addFactNth adds a lemma about the elements of sequence seq; it is only used for obligations that mention
+// some element (seq.nth seq _) of it.
+func (c *FnCtx) addFactNth(st *State, seq, f *Term) {
+	n := len(c.facts)
+	c.addFactT(st, seq, f)
+	if len(c.facts) > n {
+		if c.trigNth == nil {
+			c.trigNth = map[int]bool{}
+		}
+		c.trigNth[n] = true
+	}
+}
+
 // ---- state accessors ----
 
 func (c *FnCtx) getCell(st *State, cell *Cell) *Term {
+	if cell.global != nil && c.noObl == 0 {
+		if c.globalSeen == nil {
+			c.globalSeen = map[*Cell]bool{}
+		}
+		if !c.globalSeen[cell] {
+			c.globalSeen[cell] = true
+			c.globalReads = append(c.globalReads, cell)
+		}
+	}
 	if v, ok := st.cells[cell]; ok {
 		return v
 	}
@@ -313,7 +340,11 @@ type layerInfo struct {
 func (c *FnCtx) hget(st *State, name string, sort Sort, obj *Term) *Term {
 	h := c.heap(st, name, sort)
 	c.frameFacts(h, obj)
-	return c.eng.ts.Select(h, obj)
+	v := c.eng.ts.Select(h, obj)
+	if c.noObl == 0 && (name[0] == 'P' || name[0] == 'F') && len(c.ptrReads) < 400 {
+		c.ptrReads = append(c.ptrReads, ptrRead{heap: name, obj: obj, val: v})
+	}
+	return v
 }
 
 func (c *FnCtx) gget(st *State, name string, obj *Term) *Term {
